@@ -2,6 +2,7 @@
 from __future__ import annotations
 
 import ast
+import re
 from typing import Dict, List, Set, Tuple
 
 from ..core import AnalysisError, ClassInfo, FuncInfo, Repo, call_name, dotted, kwarg, norm, walk_no_nested
@@ -664,3 +665,57 @@ def _ancestors(n):
     while p is not None:
         yield p
         p = getattr(p, "_parent", None)
+
+
+# -------------------------------------------------------------------------------------------------
+# copy() completeness for graph classes
+def copy_completeness_rule(rc, class_refs):
+    """Every instance attribute that a model class (or one of its bases inside the repository) sets in __init__ must survive copy():
+    either the class hierarchy defines copy() and that method mentions the attribute (assigns it on the copy or passes it to the
+    constructor), or — when copy() is inherited from networkx, which creates `self.__class__()` and copies nodes, edges and graph
+    attributes only — the class has no such attribute."""
+    repo = rc.repo
+    for rel, name in class_refs:
+        ci = repo.cls(rel, name)
+        mro = repo.mro(ci)
+        attrs = {}
+        for c in mro:
+            init = c.methods.get("__init__")
+            if init is None:
+                continue
+            for n in walk_no_nested(init.node):
+                if isinstance(n, ast.Assign):
+                    for t in n.targets:
+                        if isinstance(t, ast.Attribute) and dotted(t.value) == "self":
+                            attrs.setdefault(t.attr, c.name)
+        # only attributes a caller can set through this class's constructor matter (a constant default cannot be lost)
+        own_init = repo.resolve_method(ci, "__init__")
+        settable = set(own_init.params) if own_init is not None else set()
+        attrs = {a: c for a, c in attrs.items() if a in settable}
+        cp = repo.resolve_method(ci, "copy")
+        if cp is None:
+            lost = sorted(attrs)
+            rc.ob(f"{name}.copy: inherited from networkx (fresh `{name}()` + nodes/edges); instance attributes set in __init__: {lost}")
+            for a in lost:
+                rc.fail(None, None, f"{name} inherits copy() from networkx, which builds `{name}()` and copies nodes and edges only: the attribute `{a}` (set in {attrs[a]}.__init__) "
+                        f"is not carried over — e.g. a copy, and everything built on copy() such as do(), silently loses `{a}`", construct=f"{name}.copy loses {a}", file=rel, func=name)
+            continue
+        txt = norm(cp.node, 100000)
+        # attributes re-derived by a method that copy() calls on the new object (e.g. add_cpds maintains `cardinalities`)
+        rederived = set()
+        for c_ in repo.calls_in(cp):
+            if isinstance(c_.func, ast.Attribute):
+                m_ = repo.resolve_method(ci, c_.func.attr)
+                if m_ is not None:
+                    for n_ in ast.walk(m_.node):
+                        if isinstance(n_, ast.Attribute) and dotted(n_.value) == "self" and isinstance(getattr(n_, "_parent", None), (ast.Subscript, ast.Assign, ast.AugAssign, ast.Attribute)):
+                            rederived.add(n_.attr)
+        missing = [a for a in sorted(attrs) if not re.search(r"\b%s\b" % re.escape(a), txt) and a not in rederived]
+        # a copy() that delegates to the parent's copy (super().copy()) inherits what that one carries
+        delegates = "super(" in txt and ".copy()" in txt
+        rc.ob(f"{name}.copy ({cp.qual}): attributes set in __init__ {sorted(attrs)}; not mentioned in copy(): {missing}")
+        for a in missing:
+            if delegates:
+                continue
+            rc.fail(cp, cp.node, f"{cp.qual} does not carry over `{a}` (set in {attrs[a]}.__init__): the copy silently differs from the original in `{a}`",
+                    construct=f"{name}.copy loses {a}")
